@@ -8,6 +8,7 @@ from pandapower.estimation import estimate, chi2_analysis, remove_bad_data
 
 from .. import common, pf
 from ..gen import netgen
+from ..oracles import balance
 
 PROPERTY = "C19"
 READY = False
@@ -135,15 +136,18 @@ def build_measurements(net, g, mode):
     for b, n in node.items():
         groups.setdefault(n, []).append(b)
     meas = []
-    s_scale = max(1., float(np.nanmax(np.abs(net.res_bus.p_mw.values))))
+    inj, _ = balance.element_consumption(net, True)      # bus injections from the element result tables (load reference)
+    sn = float(net.sn_mva)
 
-    def std(kind):
-        return g.R(0.002, 0.05) * (s_scale if kind in "pq" else 0.1 if kind == "v" else 0.02)
+    def std(kind, vn=None):
+        """standard deviation: 0.1 .. 3 % of the per-unit base of the quantity (keeps the gain matrix reasonably conditioned)"""
+        s_pu = 10 ** g.R(-3, -1.5)
+        return s_pu * (sn if kind in "pq" else 1. if kind == "v" else sn / (np.sqrt(3) * vn))
 
     def add_inj(n):
         for b in groups[n]:
-            meas.append(("p", "bus", float(net.res_bus.p_mw.at[b]), std("p"), b, None))
-            meas.append(("q", "bus", float(net.res_bus.q_mvar.at[b]), std("q"), b, None))
+            meas.append(("p", "bus", float(inj.at[b].real), std("p"), b, None))
+            meas.append(("q", "bus", float(inj.at[b].imag), std("q"), b, None))
 
     def add_flow(et, idx, side, kinds="pq"):
         tab, cols = RES[et]
@@ -152,7 +156,8 @@ def build_measurements(net, g, mode):
             if k in kinds:
                 val = float(net[tab].at[idx, col])
                 if np.isfinite(val):
-                    meas.append((k, et, val, std(k), idx, side))
+                    vn = float(net.bus.vn_kv.at[int(net[et].at[idx, side + "_bus"])])
+                    meas.append((k, et, val, std(k, vn), idx, side))
 
     def add_v(b):
         meas.append(("v", "bus", float(net.res_bus.vm_pu.at[b]), std("v"), b, None))
@@ -231,7 +236,7 @@ def build_measurements(net, g, mode):
             continue
         for side in (e[4], e[5]):
             if side is not None and g.B(red):
-                add_flow(e[2], e[3], side, kinds=g.C(["pq", "pq", "pqi", "i", "p", "q"]))
+                add_flow(e[2], e[3], side, kinds=g.C(["pq", "pq", "pqi", "pqi", "p", "q"]))
     for b in node:
         if g.B(red * 0.5):
             add_v(b)
